@@ -48,3 +48,27 @@ Proof.
   lia.
 Qed.
 Print Assumptions conc_online_put_double_count.
+
+(* The consequence for later calls: after the race the client frees everything it still holds (sequentially, through
+   thread 0).  The over-counted tree counter then exceeds TREE_FRAMES and the last free of a HELD block panics in
+   Tree::put's `free <= TREE_FRAMES` assertion (site STreeFree; trees.rs:337 on the compiled code). *)
+Definition idle0 (s : m2state) : bool := match nth_error (m2_pool s) 0 with Some (UIdle _) => true | _ => false end.
+Fixpoint free_all_held (fuel : nat) (s : m2state) : m2state :=
+  match fuel with
+  | O => s
+  | S fuel' =>
+      if idle0 s then
+        match m2_held s with
+        | [] => s
+        | (f, k) :: _ => free_all_held fuel' (fst (ustep g7 simple7 s 0%nat (UPut f {| r_order := k; r_class := 0; r_local := None |})))
+        end
+      else free_all_held fuel' (fst (ustep g7 simple7 s 0%nat put0))
+  end.
+Definition s_after := free_all_held 4000 s_end.
+
+Theorem conc_online_put_later_free_panics :
+  upanicked s_after = [STreeFree] /\
+  nth_error (m2_pool s_after) 0 = Some (UPanic STreeFree (UPut 128 {| r_order := 7%nat; r_class := 0; r_local := None |})) /\
+  In (128, 7%nat) (m2_held s_end).                (* the block whose free panics was held *)
+Proof. split; [vm_compute; reflexivity|]. split; [vm_compute; reflexivity|]. vm_compute. tauto. Qed.
+Print Assumptions conc_online_put_later_free_panics.
